@@ -107,7 +107,7 @@ func findCalls(fn *ssa.Function, pred func(ssa.CallInstruction) bool) []ssa.Call
 }
 
 func C07(p *an.Prog, r *an.Report) {
-	r.Explanation = "For Destination.Hash/Base32Address/Base64/Equals, RouterIdentity.Equal and RouterInfo.IdentHash the value that is hashed, encoded or compared is traced backwards across library calls: its only origin must be result 0 of (*KeysAndCert).Bytes applied to the receiver's (resp. the other operand's) own KeysAndCert, not sub-sliced, with no raw field or constant mixed in. The digest is crypto/sha256.Sum256 (directly or through go-i2p/crypto's types.SHA256, whose initialiser is Sum256 and which no instruction in the program stores to); the base32 address is TrimRight(base32(full digest), \"=\") + \".b32.i2p\" (52+8 = 60 characters by the standard length formula); base64 is the I2P base64 of the same bytes; equality is bytes.Equal / ConstantTimeCompare==1 on the two serialisations; KeysAndCert.Bytes itself draws on every field of KeysAndCert. This decides 'pure function of the identity's wire bytes' structurally for all identities; collision resistance is not decided."
+	r.Explanation = "For Destination.Hash/Base32Address/Base64/Equals, RouterIdentity.Equal and RouterInfo.IdentHash the value that is hashed, encoded or compared is traced backwards across library calls: its only origin must be result 0 of (*KeysAndCert).Bytes applied to the receiver's (resp. the other operand's) own KeysAndCert, not sub-sliced, with no raw field or constant mixed in. The digest is crypto/sha256.Sum256 (directly or through go-i2p/crypto's types.SHA256, whose initialiser is Sum256 and which no instruction in the program stores to); the base32 address is TrimRight(base32(full digest), \"=\") + \".b32.i2p\" (52+8 = 60 characters by the standard length formula); base64 is the I2P base64 of the same bytes; equality is bytes.Equal / ConstantTimeCompare==1 on the two serialisations; KeysAndCert.Bytes itself draws on every field of KeysAndCert. This decides 'pure function of the identity's wire bytes' structurally for all identities; collision resistance is not decided. H6: the three keys-and-cert readers restore the whole 384-byte block for every supported size pair."
 	r.Rule = "one obligation per accessor clause (source of hashed/encoded/compared bytes, digest function, address shape), per KeysAndCert field for coverage"
 	defer c01Block(p, r, "C07.H6") // the bytes hashed are the bytes parsed only if every reader restores the whole 384-byte block
 	r.Trusted = []string{"crypto/sha256, encoding/base32/64 (see C13), bytes.Equal, subtle.ConstantTimeCompare", "go/ssa"}
